@@ -786,6 +786,7 @@ class QvmCpu:
             self.trap(TrapCode.CANNOT_RESUME,
                       msg=f'Could not find statement to resume at addr {self.trapped_addr:08x}.')
         self.pc = stmt.start_offset
+        self.error_handler_active = False
 
     def _exec_errresn(self):
         # RESUME NEXT
@@ -797,6 +798,7 @@ class QvmCpu:
             self.trap(TrapCode.CANNOT_RESUME,
                       msg=f'Could not find statement to resume at addr {self.trapped_addr:08x}.')
         self.pc = stmt.end_offset
+        self.error_handler_active = False
 
     def _exec_exp(self):
         b = self.pop()
